@@ -3,6 +3,7 @@ import Gtree.Lemmas.GoStrings
 import Gtree.Model.Parser
 import Gtree.Model.Split
 import Gtree.Model.Spread
+import Gtree.Model.Programmable
 import Gtree.Model.Grow
 import Gtree.Model.MkOps
 /-
@@ -647,5 +648,37 @@ theorem walkerNode_src (v : Visit) (hroot : v.level = 1 → v.path = v.name) :
       simp only [this, Bool.not_false, if_true, Bool.false_eq_true, if_false]
       show (v.branch ++ [0x20]) ++ v.name = v.branch ++ sp :: v.name
       simp [sp]
+
+
+/-! ### `validateTreeRoot` (tree_handler_programmably.go) -/
+
+/-- the Go node an arena node stands for, as far as `validateTreeRoot` reads it (its hierarchy) -/
+def pnodeSrc (n : PNode) : Src.Node :=
+  { name := n.name, hierarchy := (n.hierarchy : Int), index := (n.index : Int), brnch := ⟨[], []⟩, children := [] }
+
+def sentinelSrc : Err → Option Src.Err
+  | .nilNode => some .ErrNilNode
+  | .notRoot => some .ErrNotRoot
+  | _ => none
+
+/-- **`validateTreeRoot` is the model's `Store.validateRoot`**: nil ⇒ `ErrNilNode`; a node whose hierarchy is not 1 ⇒
+    `ErrNotRoot`; otherwise no error — decided before anything else happens in every From-Root entry point. -/
+theorem validateTreeRoot_src (s : Store) (i : Nat) :
+    Src.validateTreeRoot ((s.get? i).map pnodeSrc) = (s.validateRoot (some i)).bind sentinelSrc := by
+  unfold Src.validateTreeRoot Store.validateRoot
+  cases hget : s.get? i with
+  | none => simp [hget, sentinelSrc]
+  | some n =>
+    simp only [Option.map_some, Src.Node.isRoot, pnodeSrc, Src.rootHierarchyNum]
+    by_cases h1 : n.hierarchy = 1
+    · have a : (n.hierarchy == 1) = true := by simpa using h1
+      have b : (((n.hierarchy : Nat) : Int) == 1) = true := by rw [h1]; rfl
+      simp [a, b, hget, h1]
+    · have a : (n.hierarchy == 1) = false := by simpa using h1
+      have b : (((n.hierarchy : Nat) : Int) == 1) = false := by
+        simp only [beq_eq_false_iff_ne, ne_eq]; omega
+      simp [a, b, hget, h1, sentinelSrc]
+
+theorem validateTreeRoot_nil : Src.validateTreeRoot none = some .ErrNilNode := rfl
 
 end Gtree
